@@ -188,6 +188,28 @@ def leaf_ids(t):
     return [x['id'] for x in T.subtrees(t) if x['k'] == 'simple']
 
 
+def relative_of(rng, t):
+    """a type that differs from t only in details a careless memo key may drop: array lengths, one primitive leaf, the order of the
+    arguments of a generic (seeded C05_d: TypeScript tuples cached under the Display text of [T; N], which has no length)"""
+    import copy
+    u = copy.deepcopy(t)
+    nodes = list(T.subtrees(u))
+    arrays = [x for x in nodes if x['k'] == 'special' and x['name'] == 'Array']
+    prims = [x for x in nodes if T.is_prim(x)]
+    gens = [x for x in nodes if x['k'] == 'generic' and len(x['params']) >= 2]
+    c = rng.random()
+    if arrays and c < 0.6:
+        for a in arrays:
+            a['len'] = rng.choice([k for k in (0, 1, 2, 3, 4, 5) if k != a.get('len')])
+    elif gens and c < 0.8:
+        g = rng.choice(gens)
+        g['params'] = g['params'][1:] + g['params'][:1]
+    elif prims:
+        x = rng.choice(prims)
+        x['name'] = rng.choice([q for q in T.LEAF_PRIMS if q != x['name']])
+    return u
+
+
 def phase_seq(chk, V, n):
     """format_type is a function of (configuration, generics, type): the SAME Language value is asked call after call - the same
     non-trivial type under generics lists that differ in whether one of its leaf names is a generic parameter of the enclosing item
@@ -204,8 +226,15 @@ def phase_seq(chk, V, n):
                     break
             x = rng.choice(ids)
             other = T.rand_type(rng, rng.choice([1, 2]), ['T'])
-            calls = rng.choice([[([], t), ([x], t), ([], t)], [([x], t), ([], t), ([x], t)], [([], other), ([x], t), (['T'], other), ([], t)],
-                                [([x, 'T'], t), (['T'], t), (['T'], other)]])
+            if rng.random() < 0.4:
+                # relatives of one type, formatted one after the other: each must get ITS translation
+                arr = T.rand_type(rng, rng.choice([0, 1]), [])
+                t2 = rng.choice([t, ir.special('Array', arr, n=rng.choice([2, 3])), ir.special('Vec', ir.special('Array', arr, n=rng.choice([1, 4])))])
+                r1 = relative_of(rng, t2)
+                calls = [([], t2), ([], r1), ([], relative_of(rng, r1)), ([], t2)]
+            else:
+                calls = rng.choice([[([], t), ([x], t), ([], t)], [([x], t), ([], t), ([x], t)], [([], other), ([x], t), (['T'], other), ([], t)],
+                                    [([x, 'T'], t), (['T'], t), (['T'], other)]])
             seqs.append((l, T.rand_cfg(rng, l, [t], []), calls))
     sres = vf.impl([{'cmd': 'c05_format_seq', 'lang': l, 'cfg': c, 'calls': [{'generics': g, 'ty': t} for g, t in calls]} for l, c, calls in seqs])
     cases, ires = [], []
